@@ -507,6 +507,7 @@ for k in ('eth2/beacon/common:PostSlotTransition', 'eth2/beacon/common:StateTran
 # fork upgrades record the fork view they build
 for k in ('eth2/beacon:StandardUpgradeableBeaconState.UpgradeMaybe', 'eth2/beacon/common:ProcessSlots', 'eth2/beacon/common:StateTransition'):
     EXTRA.setdefault(k, []).append('//@   assigns ghost(n_fork_view), ghost(last_fork_view)')
+    EXTRA.setdefault(k, []).append('//@   assigns ghost(n_dhdr_view), ghost(last_dhdr_view)')
 sig = re.compile(r'^func (\((\w+) (\*?)(\w+)\) )?(\w+)\((.*)\) (.*) \{$')
 out = collections.defaultdict(list)
 for root, _, files in os.walk(os.path.join(REPO, 'eth2/beacon')):
